@@ -39,6 +39,7 @@ class Schema:
 
 
 SCHEMAS = {}
+CUSTOM_KINDS = {}          # kind name -> wrapper(term): contract-supplied views of opaque field values (Int-coded)
 
 
 def declare(cls, **fields):
@@ -94,6 +95,8 @@ def wrap(kind, t, owner=None):
         return SymId(t)
     if kind == "text":
         return SymText(t)
+    if kind in CUSTOM_KINDS:
+        return CUSTOM_KINDS[kind](t)
     raise Inapplicable(f"field kind {kind}")
 
 
@@ -112,6 +115,8 @@ def unwrap(kind, v):
         raise Inapplicable(f"storing {type(v).__name__} into a reference field")
     if kind.startswith("list:"):
         return as_seq(v)
+    if kind in CUSTOM_KINDS and hasattr(v, "t"):
+        return v.t
     if kind in ("id", "text"):
         if isinstance(v, SymId):
             return v.t
